@@ -8,6 +8,7 @@ import z3
 from checks import C01
 from checks.ekf_common import triage_generic
 from contracts import cppgen, pyblock
+from pvc import driver
 from pvc.driver import Finding
 from replay import scenarios
 
@@ -103,13 +104,29 @@ def native_sign_sensitive(shape=None, seed=0, container="set"):
     return problems, sc
 
 
+def native_pole_form():
+    """|x| next to a pole at x on symbols declared real (function zoo form abs_form_with_pole): python, and the generated C++"""
+    from replay import zoo
+
+    problems, summary, sc = zoo.run_form("abs_form_with_pole", True, cxx=True, seed=3)
+    return problems, sc
+
+
+native_pole_form.replay_inputs = {"zoo_form": "abs_form_with_pole", "assumptions": True, "cxx": True, "seed": 3}
+
+
 def check(run):
+    pole = [native_sign_sensitive, native_pole_form]
     for c in (pyblock.Compile(True), pyblock.Compile(False), pyblock.Execute(True), pyblock.Execute(False)):
-        rep = run.verify(c, {})
-        triage_generic(run, rep, native_on_off, c.key.split(".")[-1], extra_native=[native_sign_sensitive])
+        rep = run.verify(c, pyblock.compile_callees("formak.python"))
+        triage_generic(run, rep, native_on_off, c.key.split(".")[-1], extra_native=pole)
     for c in (cppgen.CppBlockCompile(True), cppgen.CppBlockCompile(False)):
-        rep = run.verify(c, {})
-        triage_generic(run, rep, cxx_ssa_native, "cpp.BasicBlock.compile", extra_native=[native_sign_sensitive])
+        rep = run.verify(c, pyblock.compile_callees("formak.cpp"))
+        triage_generic(run, rep, cxx_ssa_native, "cpp.BasicBlock.compile", extra_native=pole)
+    for module in ("formak.python", "formak.cpp"):
+        if pyblock.has_guarded_simplify(driver.REPO, module):
+            rep = run.verify(pyblock.GuardedSimplify(module), {})
+            triage_generic(run, rep, native_on_off, "_simplify", extra_native=pole)
     shapes = [(3, 1, 2), (2, 2, 0), (4, 0, 1)] if run.tier == "thorough" else [(3, 1, 2)]
     fails = 0
     for shp in shapes:
@@ -143,6 +160,8 @@ def check(run):
     zf = 0
     names = list(zoo.FORMS) if run.tier == "thorough" else list(zoo.QUICK)
     cases = [(nm, assume) for nm in names for assume in ((False, True) if run.tier == "thorough" else (False,))]
+    if run.tier != "thorough":
+        cases.append(("abs_form_with_pole", True))  # |x| next to a pole at x, symbols declared real: simplify() builds a ComplexInfinity branch (D15)
     refused = 0
     for nm, assume in cases:
         run.native_runs += 1
